@@ -83,7 +83,7 @@ class TT_TGF_3000_4000_Series(QMI_Instrument):
         try:
             # Clear error queue to avoid reporting stale errors.
             self._scpi_protocol.write("*CLS")
-        except OSError:
+        except Exception:
             self._scpi_transport.close()
             raise
         super().open()
